@@ -634,7 +634,7 @@ pub fn run(tier: Tier, seed: u64) -> i32 {
         }
         // the enumerated family: a slice of it per job (thorough: all of it, quick: every 48th member)
         {
-            let step: usize = std::env::var("VERIF_C11_STAMMA_STEP").ok().and_then(|v| v.parse().ok()).unwrap_or(if tier == Tier::Quick { 48 } else { 1 });
+            let step: usize = std::env::var("VERIF_C11_STAMMA_STEP").ok().and_then(|v| v.parse().ok()).unwrap_or(if std::env::var("VERIF_SHADOW").map(|v| v == "1").unwrap_or(false) { 960 } else if tier == Tier::Quick { 48 } else { 1 });
             let per_job = STAMMA_FAMILY_SIZE / n_jobs + 1;
             let from = j * per_job;
             let mut k = from + (seed as usize % step);
@@ -659,7 +659,9 @@ pub fn run(tier: Tier, seed: u64) -> i32 {
             let dtm = crate::oracle::dtm::dtm();
             let mut made = 0;
             let mut tries = 0;
-            let want = std::env::var("VERIF_C11_THREE_MAN").ok().and_then(|v| v.parse().ok()).unwrap_or(tier.pick(2usize, 5));
+            // (the shadow run on the shipped-profile build leaves the two expensive families out)
+            let shadow = std::env::var("VERIF_SHADOW").map(|v| v == "1").unwrap_or(false);
+            let want = std::env::var("VERIF_C11_THREE_MAN").ok().and_then(|v| v.parse().ok()).unwrap_or(if shadow { 0 } else { tier.pick(2usize, 5) });
             while made < want && tries < 4000 {
                 tries += 1;
                 let kind = *rng.pick(&[Kind::Queen, Kind::Queen, Kind::Rook, Kind::Rook, Kind::Pawn]);
